@@ -112,6 +112,7 @@ fn simple_type(name: &str, k: u64, _w: u64) -> Item {
             Some(Vft {
                 size: None,
                 funcs: vec![Func {
+                    more: vec![],
                     sty: 0,
                     vis: true,
                     name: "vfx".into(),
@@ -138,7 +139,7 @@ impl Prop for Unrelated {
         "C19/unrelated".into()
     }
     fn rule(&self) -> String {
-        "accepted multi-module program P from the rich generator, an observed module M, and a change restricted to modules outside M's transitive `use` closure: add a fresh module (in a fresh directory, at the top, below M's own path or next to M; sorting before or after everything; often defining short names M uses or types named like M's members or built-ins; sometimes with extern values, rust backend text and impl blocks of its own), add items (types, enums, extern types, vftable owners named like things M uses) to an unrelated module, remove an unrelated module nobody imports, remove the last item of an unrelated leaf module, reorder the modules. Oracle: when P and P+change are both accepted, <M>.rs is byte-identical. Pairs where P+change is rejected are discarded and counted. Non-trivial: M has a cross-module reference and the change touches a module that shares a short type name with something M's closure uses".into()
+        "accepted multi-module program P from the rich generator, an observed module M, and a change restricted to modules outside M's transitive `use` closure: add a fresh module (in a fresh directory, at the top, below M's own path or next to M; sorting before or after everything; often defining short names M uses or types named like M's members or built-ins; sometimes with extern values, rust backend text, impl blocks of its own, and impl blocks for a type of M that it imports but does not define), add items (types, enums, extern types, vftable owners named like things M uses) to an unrelated module, remove an unrelated module nobody imports, remove the last item of an unrelated leaf module, reorder the modules. Oracle: when P and P+change are both accepted, <M>.rs is byte-identical. Pairs where P+change is rejected are discarded and counted. Non-trivial: M has a cross-module reference and the change touches a module that shares a short type name with something M's closure uses".into()
     }
     fn gen(&self, t: &mut Tape) -> Case {
         let w = if t.chance(1, 2) { 8 } else { 4 };
@@ -233,6 +234,7 @@ impl Prop for Unrelated {
                             m.impls.push(Impl {
                                 ty: tn,
                                 funcs: vec![Func {
+                                    more: vec![],
                                     sty: 0,
                                     vis: true,
                                     name: fname,
@@ -244,6 +246,34 @@ impl Prop for Unrelated {
                                     cc: None,
                                 }],
                             });
+                        }
+                    }
+                    // an impl block for a type of the observed module, which the fresh module imports but does
+                    // not define (the unrelated module depends on M, not M on it)
+                    if t.chance(1, 4) {
+                        if let Some(tn) = p1.mods[obs].types().next().map(|t| t.name.clone()) {
+                            if !m.items.iter().any(|i| i.name() == tn) {
+                                let mut up = p1.mods[obs].path.clone();
+                                if t.chance(1, 2) {
+                                    up.push(tn.clone());
+                                }
+                                m.uses.push(up);
+                                m.impls.push(Impl {
+                                    ty: tn,
+                                    funcs: vec![Func {
+                                        more: vec![],
+                                        sty: 0,
+                                        vis: true,
+                                        name: format!("zdangling{fresh_n}"),
+                                        doc: vec![],
+                                        args: vec![Arg::ConstSelf],
+                                        ret: None,
+                                        addr: Some(Num::d(0x7300 + fresh_n as i128)),
+                                        index: None,
+                                        cc: None,
+                                    }],
+                                });
+                            }
                         }
                     }
                     if p2.mods.iter().any(|x| x.path == m.path) {
